@@ -268,3 +268,34 @@ Proof.
   exact (helper_col_sound_c h ha lvl loop headers entries exiting exits doms bnames vnames true).
 Qed.
 Print Assumptions C06_loop_helper_column_sound.
+
+(* the per-call columns of insert_block_and_control_blocks, extract_region and of an insertion with a region
+   predecessor also mean: every decision list that can be walked before the call can be walked, in the strict
+   reading, in the hierarchy the implementation produced *)
+From V Require Import Model.HierCols Model.RlInsert Model.IbPath Model.ExtractPath Model.CbHierPath.
+Theorem C06_control_blocks_column_sound :
+  forall h ha lvl new var preds Ss names,
+    cbh_col_of h ha lvl new var preds Ss names = 1%Z ->
+    forall n e e' ds,
+      (exists b p, find h n = Some b /\ n_kind b = KOrig p) -> E (Fc var) e e' ->
+      CTrace h (resolve_flat h) true n e ds -> CTrace ha (resolve_flat ha) true n e' ds.
+Proof. intros h ha lvl new var preds Ss names. exact (cbh_col_sound_c h ha lvl new var preds Ss names true). Qed.
+Print Assumptions C06_control_blocks_column_sound.
+
+Theorem C06_region_extraction_column_sound :
+  forall h ha lvl blocks entries hd ex rk rname,
+    extract_col_of h ha lvl blocks entries hd ex rk rname = 1%Z ->
+    forall n e e' ds,
+      (exists b p, find h n = Some b /\ n_kind b = KOrig p) -> E Fx e e' ->
+      CTrace h (resolve_flat h) true n e ds -> CTrace ha (resolve_flat ha) true n e' ds.
+Proof. intros h ha lvl blocks entries hd ex rk rname. exact (extract_col_sound_c h ha lvl blocks entries hd ex rk rname true). Qed.
+Print Assumptions C06_region_extraction_column_sound.
+
+Theorem C06_insertion_with_region_predecessor_column_sound :
+  forall h ha new e0 preds cls,
+    ins_rl_col_of h ha new e0 preds cls = 7%Z ->
+    forall n e e' ds,
+      (exists b p, find h n = Some b /\ n_kind b = KOrig p) -> E Fn e e' ->
+      CTrace h (resolve_flat h) true n e ds -> CTrace ha (resolve_flat ha) true n e' ds.
+Proof. intros h ha new e0 preds cls. exact (ins_rl_col_sound_c h ha new e0 preds cls true). Qed.
+Print Assumptions C06_insertion_with_region_predecessor_column_sound.
